@@ -69,14 +69,14 @@ def check_trees(ck, n):
     ops = [{'op': 'c16.killlist', 'tree': t, 'recursively': rec} for (t, rec, _s) in cases]
     answers = ck.model(ops)
     for (t, rec, sudo), ans in zip(cases, answers):
-        world = K.KillWorld(K.tree_children(t))
-        joined = []
-
-        class Th(object):
-            stdout_result, stderr_result = 'o', None
-
-            def join(self):
-                joined.append(len(world.kills))
+        pids_all = K.all_pids(t)
+        # short-lived children that are gone when their turn comes, and processes that ignore SIGTERM
+        gone = set(rng.sample(pids_all, min(len(pids_all), rng.randint(1, 2)))) if rng.random() < 0.35 else set()
+        if t['pid'] in gone and rng.random() < 0.7:
+            gone.discard(t['pid'])
+        ignore = set(p for p in pids_all if p != t['pid'] and rng.random() < 0.3)
+        world = K.KillWorld(K.tree_children(t), ignore_term=ignore, gone=gone)
+        worker = K.WorkerStub(world, t['pid']) if rng.random() < 0.6 else None
         handed = []
 
         def sudo_fn(pid):
@@ -84,33 +84,46 @@ def check_trees(ck, n):
             from rebench import denoise as dn
             handed.append(pid)
             dn._kill(pid)
+        crash = None
+        res = (None,)
         with world.active():
-            res = skill.kill_process(t['pid'], rec, Th() if rng.random() < 0.5 else None,
-                                     sudo_fn if sudo else None)
+            try:
+                res = skill.kill_process(t['pid'], rec, worker, sudo_fn if sudo else None)
+            except Exception as e:  # noqa: what the implementation lets escape is an observation
+                crash = '%s: %s' % (type(e).__name__, e)
         kills = handed if sudo else world.kills
         effect = world.kills          # the SIGKILLs really sent (by the helper when sudo is used)
         d = depth_of(t)
-        n_all = len(K.all_pids(t))
+        n_all = len(pids_all)
         ck.count('tree-depth:%d' % d)
         ck.count('tree-size:%s' % ('1' if n_all == 1 else '2-5' if n_all <= 5 else '6-20' if n_all <= 20 else '>20'))
         ck.count('kill_tree' if rec else 'root-only')
+        if gone:
+            ck.count('tree with already-gone pids (ProcessLookupError)')
+            if any(p in gone for p in ans['pids'][:-1]):
+                ck.count('a gone pid precedes live ones in the kill list')
+        if ignore:
+            ck.count('tree with processes ignoring SIGTERM')
         ck.case(nontrivial_key=('tree', json.dumps(t)) if n_all >= 3 and rec else None,
-                sample={'depth': d, 'processes': n_all, 'recursively': rec})
-        inp = {'tree': t, 'recursively': rec, 'sudo': sudo}
-        if kills != ans['pids'] or res[0] != -9:
-            ck.disagree('c16.killlist: kill_process/_get_process_children vs RB.Kill.killList', inp,
-                        {'kills': kills, 'rc': res[0]}, ans, TH_TREE)
-        if joined and joined[0] != len(effect):
-            ck.disagree('c16.killlist: the worker is joined after all kills', inp, {'joined_after': joined}, None, TH_TREE)
-        # oracle: root first, every process of the tree exactly once, nothing else
-        want = K.all_pids(t) if (rec or sudo) else [t['pid']]
-        bad = (sorted(set(effect)) != sorted(want)) if sudo else (sorted(kills) != sorted(want))
-        if bad or (kills and kills[0] != t['pid']):
-            missing = sorted(set(want) - set(effect))
-            ck.oracle_fail('tree_all_killed', inp, {'killed': kills, 'missing': missing[:10],
-                                                    'twice': sorted(set(p for p in kills if kills.count(p) > 1))[:10]},
+                sample={'depth': d, 'processes': n_all, 'recursively': rec, 'gone': len(gone), 'ignore_term': len(ignore)})
+        inp = {'tree': t, 'recursively': rec, 'sudo': sudo, 'gone': sorted(gone), 'ignore_term': sorted(ignore),
+               'with_worker': worker is not None}
+        other = [(p, sg) for (p, sg) in world.signals if sg != 9]
+        if kills != ans['pids'] or res[0] != -9 or other or crash:
+            ck.disagree('c16.killlist: kill_process/_get_process_children vs RB.Kill.killList (SIGKILL to each, in order)',
+                        inp, {'sigkill': kills, 'other_signals': other[:10], 'rc': res[0], 'raised': crash}, ans, TH_TREE)
+        if worker is not None and worker.joins != [(None, len(world.signals))]:
+            ck.disagree('c16.killlist: the worker is joined once, without time-out, after all signals', inp,
+                        {'joins (time-out, signals sent before)': worker.joins}, {'joins': [[None, len(ans['pids'])]]}, TH_TREE)
+        # oracle: afterwards no process of the tree is alive (it got SIGKILL, or SIGTERM and does not ignore it, or
+        # had already gone); without kill_tree and without the helper only the root is meant
+        want = pids_all if (rec or sudo) else [t['pid']]
+        left = world.alive(want)
+        if left or crash:
+            ck.oracle_fail('tree_all_killed', inp, {'left_alive': left[:10], 'signals': world.signals[:40], 'raised': crash},
                            signature={'clause': 'tree_all_killed', 'mode': 'scripted-pgrep',
-                                      'missing_depth': min([depth_in(t, p) for p in missing] or [-1])})
+                                      'left_alive_ignores_sigterm': bool(left) and all(p in ignore for p in left),
+                                      'after_gone_pid': bool(gone)})
 
 
 def depth_in(t, pid, d=0):
@@ -174,7 +187,7 @@ def check_decisions(ck):
         outcomes = None
         if sudo and rng.random() < 0.25:
             outcomes = [rng.choice(['ok', 'fail', 'nosudo']) for _ in range(6)]
-        obs = K.run_decision(s, tree0, kt, sudo, outcomes)
+        obs = K.run_decision(s, tree0, kt, sudo, outcomes, ignore_term=[K.FAKE_BASE + 14, K.FAKE_BASE + 13])
         if sudo and ['kill', tree0['pid']] in obs['trace']:
             ck.count('kill through sudo: %s' % ('all calls succeed' if outcomes is None else 'some calls fail'))
             want = sudo_model[kt]
@@ -217,7 +230,12 @@ def check_decisions(ck):
                                signature=dict(sig, clause='running_child_killed', channel='sudo'))
         elif should:
             want = K.all_pids(tree0) if kt else [tree0['pid']]
-            if sorted(killed) != sorted(want):
+            left = [p for p in obs['left_alive'] if p in want]
+            if left:
+                # two processes of the tree ignore SIGTERM: whatever the implementation sends, they must be dead
+                ck.oracle_fail('running_child_killed', inp, {'left_alive': left, 'signals': obs['signals']},
+                               signature=dict(sig, clause='running_child_killed', left_alive_ignores_sigterm=True))
+            elif sorted(killed) != sorted(want) and not [sg for (_p, sg) in obs['signals'] if sg != 9]:
                 ck.oracle_fail('running_child_killed', inp, {'killed': killed, 'tree': want},
                                signature=dict(sig, clause='running_child_killed'))
         elif killed:
@@ -293,6 +311,22 @@ def check_real_thread(ck, n):
         t_start = time.time()
         try:
             with drive.scripted(layer), sudo.active():
+                # signal-aware kill: descendants with an odd pid ignore SIGTERM; only SIGKILL counts as a kill
+                from rebench import subprocess_kill as skill_mod
+                sigs, dead = [], set()
+
+                def kill_sig(pid, sig=9):
+                    sig = int(sig)
+                    sigs.append((pid, sig))
+                    is_root = pid in layer._procs
+                    if sig == 9:
+                        dead.add(pid)
+                        layer.kill(pid)
+                    elif sig == 15 and (is_root or pid % 2 == 0):
+                        dead.add(pid)
+                        if is_root:
+                            layer._procs[pid].killed.set()
+                skill_mod.kill = kill_sig
                 try:
                     ret = swt.run('exe arg', env={}, cwd=None, shell=True, timeout=timeout, stdout=swt.PIPE,
                                   stderr=swt.STDOUT, uses_sudo=use_sudo)
@@ -337,7 +371,13 @@ def check_real_thread(ck, n):
         sig = {'mode': 'real-thread', 'join_end': 'interrupt' if interrupted else 'deadline'}
         if mode == 'interrupt-at-start':
             sig['during'] = 'thread.start()'
-        if running and use_sudo:
+        left = [p for p in want if p not in dead]
+        if running and left:
+            ck.oracle_fail('running_child_killed', inp, {'left_alive': left, 'signals': sigs[:40],
+                                                         'note': 'descendants with an odd pid ignore SIGTERM'},
+                           signature=dict(sig, clause='running_child_killed',
+                                          left_alive_ignores_sigterm=all(p % 2 == 1 for p in left)))
+        elif running and use_sudo:
             if sorted(set(privileged)) != sorted(want):
                 ck.oracle_fail('running_child_killed', inp, {'killed_by_the_privileged_helper': privileged,
                                                              'handed_to_sudo': kills, 'tree': want},
@@ -599,19 +639,26 @@ def run(ck):
 def replay(ck, data):
     inp = data['input']
     if 'tree' in inp and 'recursively' in inp:
-        # a tree case: re-run through the same comparison
+        # a tree case: the same comparison on exactly this input
         from rebench import subprocess_kill as skill
         t, rec = inp['tree'], inp['recursively']
         ans = ck.model([{'op': 'c16.killlist', 'tree': t, 'recursively': rec}])[0]
-        world = K.KillWorld(K.tree_children(t))
+        world = K.KillWorld(K.tree_children(t), ignore_term=inp.get('ignore_term', ()), gone=inp.get('gone', ()))
+        worker = K.WorkerStub(world, t['pid']) if inp.get('with_worker') else None
+        crash = None
         with world.active():
-            skill.kill_process(t['pid'], rec, None, None)
+            try:
+                skill.kill_process(t['pid'], rec, worker, None)
+            except Exception as e:  # noqa
+                crash = '%s: %s' % (type(e).__name__, e)
         ck.case(nontrivial_key=('tree', json.dumps(t)))
-        if world.kills != ans['pids']:
-            ck.disagree('c16.killlist: kill_process vs RB.Kill.killList', inp, {'kills': world.kills}, ans, TH_TREE)
+        if world.kills != ans['pids'] or crash or any(sg != 9 for (_p, sg) in world.signals):
+            ck.disagree('c16.killlist: kill_process vs RB.Kill.killList', inp,
+                        {'sigkill': world.kills, 'signals': world.signals[:40], 'raised': crash}, ans, TH_TREE)
         want = K.all_pids(t) if rec else [t['pid']]
-        if sorted(world.kills) != sorted(want):
-            ck.oracle_fail('tree_all_killed', inp, {'killed': world.kills, 'missing': sorted(set(want) - set(world.kills))},
+        left = world.alive(want)
+        if left or crash:
+            ck.oracle_fail('tree_all_killed', inp, {'left_alive': left, 'signals': world.signals[:40], 'raised': crash},
                            signature={'clause': 'tree_all_killed', 'mode': 'scripted-pgrep'})
     elif 'kind' in inp:
         check_real(ck, [(inp['kind'], inp['depth'], inp['fanout'], inp['limit'], inp['ignore_timeouts'],
